@@ -49,7 +49,7 @@ def setup():
 OPS = ['def_m1', 'def_m2', 'def_m_none', 'def_m_empty', 'def_mg', 'def_special4', 'def_ab3', 'use_p', 'use_q_list', 'use_r_ab', 'use_p_uneval',
        'file2_redefine', 'include_def_use', 'finalize', 'def_and_use_one_text', 'use_then_def_one_text',
        'def_gin_macro5', 'use_p_short_ref', 'use_r_uneval', 'def_m11_skip_unknown', 'def_ab_skip_list', 'def_a_prefix',
-       'use_r_dictkey', 'use_r_dictkey_uneval']
+       'use_r_dictkey', 'use_r_dictkey_uneval', 'query_m', 'query_ab_value']
 TEXT = {
     'def_m1': 'm = 1', 'def_m2': 'm = 2', 'def_m_none': 'm = None', 'def_m_empty': "m = ''", 'def_mg': 'm = @c05.g()', 'def_special4': 'm/macro.value = 4',
     'def_gin_macro5': 'm/gin.macro.value = 5',
@@ -144,6 +144,8 @@ class World:
         exp = 'ValueError'
       else:
         self.locked = True
+    elif op in ('query_m', 'query_ab_value'):
+      pass
     elif self.locked:
       exp = 'RuntimeError'
     else:
@@ -151,6 +153,12 @@ class World:
     try:
       if op == 'finalize':
         gin.finalize()
+      elif op in ('query_m', 'query_ab_value'):
+        # a read-only probe ("is it set?"): whatever it answers, it changes nothing
+        try:
+          gin.query_parameter('%m' if op == 'query_m' else 'a/b/gin.macro.value')
+        except ValueError:
+          pass
       elif op == 'file2_redefine':
         gin.parse_config_file('c05_f2.gin')
       elif op == 'include_def_use':
@@ -280,9 +288,20 @@ def m_matches(names, q):
   return [n for n in names if n.endswith('.' + q)]
 
 
-def const_case(names, res):
-  desc = ['const', list(names)]
+def const_case(names, res, pre=None):
+  desc = ['const', list(names)] + ([pre] if pre else [])
   harness.hard_reset()
+  # history: interactive mode was left before (a balanced enter/exit, or a defensive exit that matches no enter):
+  # definitions made afterwards are made OUTSIDE interactive mode
+  if pre == 'unmatched_exit':
+    gin.exit_interactive_mode()
+  elif pre == 'enter_exit':
+    gin.enter_interactive_mode()
+    gin.exit_interactive_mode()
+  elif pre == 'block_then_unmatched_exit':
+    with gin.config.interactive_mode():
+      pass
+    gin.exit_interactive_mode()
   defined = {}
   for n in names:
     obj = object()
@@ -411,6 +430,9 @@ def _const_shard(args):
   for idx, names in enumerate(const_subsets(tier)):
     if idx % n == i:
       const_case(names, res)
+      if len(names) <= 2:
+        for pre in ('unmatched_exit', 'enter_exit', 'block_then_unmatched_exit'):
+          const_case(names, res, pre)
       if idx % 53 == i % 53:
         res.sample({'constants': names})
   if i == 0:
@@ -436,7 +458,7 @@ def run(ctx):
 def replay(obj):
   if obj and obj[0] == 'const':
     res = core.Result()
-    const_case(obj[1], res)
+    const_case(obj[1], res, obj[2] if len(obj) > 2 else None)
     harness.hard_reset()
     return res
   if obj and obj[0] == 'const_clear':
